@@ -3,7 +3,7 @@ The generated program: one definition per `quote!` branch of `src/feature/**`, w
 the Rust control flow (loops with early return, unchecked unwraps, wrapping arithmetic, casts),
 over the tables the macro computes.  An enum value is represented by its discriminant.
 -/
-import EnumToolsModel.Macro
+import EnumToolsModel.Config
 namespace ET
 
 /-! ### tables (`table_range.rs`, `table_name.rs`, `table_enum.rs`, `min_const.rs`, `max_const.rs`) -/
